@@ -16,11 +16,12 @@ import (
 	"wzverif/internal/gen"
 	"wzverif/internal/kit"
 	"wzverif/internal/opc"
+	"wzverif/internal/ops"
 )
 
 func TestMain(m *testing.M) {
 	document.SetGlobalLevel(document.LogLevelSilent)
-	kit.TestMain(m, 1500, 9000)
+	kit.TestMain(m, 900, 6000)
 }
 
 func run(c Case) *kit.Result {
@@ -454,9 +455,61 @@ func countEmitted(c *Case, tok string) int {
 func TestC18(t *testing.T) {
 	kit.Main(t, kit.Spec[Case]{
 		ID: "C18", Level: "exploration",
-		Rule: "TBD",
+		Rule: "base document built through the API: 1-6 (thorough 1-9) body blocks = paragraphs whose text is drawn as tokens (literals incl. XML metacharacters/Unicode, lone and double braces, variable names as literal text, {{name}} placeholders) and then cut into up to 6 runs at drawn rune positions (half of the cuts inside a placeholder) with formats from a palette, plus page-break / inline-picture / PAGE-field runs at run boundaries and paragraph-property setter calls; tables (1-4 x 1-3, one horizontal or vertical merge, header row, row height, shaded cells, nested tables) with cell paragraphs of the same kind, in half of the tables one row in the documented row-loop shape ({{#each list}} in its first cell, {{/each}} in its last, item fields, cut into runs); paragraphs and cell paragraphs holding {{#image x}} (alone, or with non-blank text around / two placeholders); 0-3 headers/footers of distinct kinds with placeholders; section settings, document properties, a custom style, list items. Data: a drawn subset of the variable names (strings incl. XML metacharacters, braces, blanks, empty; ints; control characters only for names used in headers/footers), lists of 0-3 maps with a drawn subset of the fields, image data for a drawn subset of the image names. Rendered through LoadTemplateFromDocument+RenderTemplateToDocument, or saved and rendered through TemplateRenderer.LoadTemplateFromFile+RenderTemplate (optionally after adding Word-style package relationships to the file). non-trivial = some placeholder is cut across runs of different formats (in the case and as seen in the saved base) and the document has both a supplied and an unsupplied placeholder and a table or a header/footer; distinct = distinct (block skeleton: run counts, non-text run kinds, setter kinds, table shapes/loop row/merges; header/footer kinds; per-name value class vector; list lengths; entry point)",
 		Gen:  genCase, Run: run, Findings: findings, Fixed: fixedCases,
+		Assumptions: []string{
+			"placeholder syntax as documented: {{name}} with name = [A-Za-z0-9_]+, {{#each list}} ... {{/each}} around the cells of one table row, {{#image name}}; placeholders are found by scanning the concatenated text of a paragraph from left to right (own scanner)",
+			"names of variables, header-only variables, item fields, lists and images come from pairwise disjoint pools that avoid the directive keywords; values never contain '{{' (re-scanning of values is C16's subject) nor '[IMAGE:'",
+			"body paragraphs hold no {{#each}}/{{#if}} (document-level loops and conditionals are C16's subject); loop-row cells hold item fields and brace-free literals only, one loop row per table, the list of a loop row is always supplied (0-3 items); merges never touch the loop row",
+			"a value takes the format of the run holding the first character of its placeholder; run boundaries themselves are not compared, only the format of every character",
+			"non-text runs are only placed at run boundaries that are not strictly inside a placeholder; a paragraph where one is inside is skipped (counted as ambiguous)",
+			"an image placeholder whose image has no data stands alone in its paragraph; the only demand is that one paragraph naming the image stays in its place (the statement is silent on more)",
+			"text and pictures replacing an image-placeholder paragraph are compared as one flattened sequence, however many paragraphs the library splits them into; properties of picture-only paragraphs are not judged",
+			"a header/footer value that XML 1.0 cannot carry is only required to leave the part well-formed",
+			"XML parts are compared as canonical trees (attribute order, empty-element form and indentation ignored); an empty w:rPr / w:pPr equals an absent one; xml:space on w:t is not compared",
+			"for the file entry points the base document is what the library holds after opening the file (tpl.BaseDoc re-saved), so losses of the reader are not attributed to rendering",
+		},
+		MustSee: map[string]float64{"ph:split-across-formats": 0.5, "ph:split-across-runs": 0.6, "ph:supplied": 0.7, "ph:unsupplied": 0.5, "doc:table": 0.25, "doc:row-loop": 0.15,
+			"loop:2+items": 0.08, "loop:0-items": 0.02, "doc:nested-table": 0.1, "doc:merged-table": 0.05, "doc:header-footer": 0.4, "doc:section-settings": 0.2, "doc:properties": 0.15,
+			"doc:custom-style": 0.15, "doc:list-item": 0.1, "doc:image-placeholder": 0.15, "doc:image-placeholder-in-cell": 0.03, "image:with-data": 0.15, "image:without-data": 0.05,
+			"nontext:br": 0.3, "nontext:pic": 0.1, "nontext:fld": 0.1, "value:xml-meta": 0.2, "value:control": 0.1, "value:braces": 0.2, "value:empty": 0.1, "value:int": 0.2,
+			"entry:0": 0.5, "entry:1": 0.1, "entry:2": 0.03, "ph:split-in-loop-row": 0.08, "pset:keepnext": 0.05, "pset:align": 0.2},
 	})
 }
 
-func fixedCases() []Case { return nil }
+// fixedCases: the documented usage and a sweep over every cut position of a two-placeholder paragraph.
+func fixedCases() []Case {
+	bold := &ops.Fmt{Bold: true}
+	red := &ops.Fmt{Italic: true, Color: "FF0000"}
+	txt := func(s string, f *ops.Fmt) Run { return Run{K: "t", T: s, F: f} }
+	cellp := func(rs ...Run) Cell { return Cell{Paras: []Para{{Runs: rs}}} }
+	var out []Case
+	// README-like: variables in single runs, a table with a header row and a loop row, a header and a footer
+	out = append(out, Case{
+		Blocks: []Block{
+			{P: &Para{Runs: []Run{txt("Company: ", nil), txt("{{name}}", bold)}, Sets: []PSet{{K: "align", I: []int{1}}}}},
+			{P: &Para{Runs: []Run{txt("Location {{city}} / unknown {{code}}", nil)}}},
+			{T: &Table{Rows: 3, Cols: 2, LoopRow: 1, List: "rows", Header: 1, Cells: [][]Cell{
+				{cellp(txt("Item", bold)), cellp(txt("Price", bold))},
+				{cellp(txt("{{#each rows}}{{item}}", nil)), cellp(txt("{{price}}{{/each}}", nil))},
+				{cellp(txt("Sum", nil)), cellp(txt("n/a", nil))}}}},
+		},
+		HFs:  []HF{{Text: "Report for {{name}} <{{doc_no}}>"}, {Footer: true, Text: "{{city}} & {{rev}}", PageNum: 2}},
+		Page: &Page{Size: 1, Landscape: true, Margins: []float64{20, 25, 20, 25}},
+		Data: Data{Vars: map[string]Val{"name": {S: "ACME <&> Co"}, "city": {S: "Oslo"}, "doc_no": {S: "a\x00b\x0b"}},
+			Lists: map[string][]map[string]string{"rows": {{"item": "bolt", "price": "2"}, {"item": "nut <M4>", "price": "1"}, {"item": "washer"}}}},
+	})
+	// every cut position of a paragraph with two supplied placeholders, in two and in three runs
+	text := []rune("Dear {{name}}, {{city}}!")
+	for p := 1; p < len(text); p++ {
+		out = append(out, Case{Blocks: []Block{{P: &Para{Runs: []Run{txt(string(text[:p]), bold), txt(string(text[p:]), nil)}}}},
+			HFs:  []HF{{Text: "{{name}}"}},
+			Data: Data{Vars: map[string]Val{"name": {S: "Ann & Bo"}, "city": {S: "<Oslo>"}}}})
+		if q := p + 2; q < len(text) {
+			out = append(out, Case{Blocks: []Block{{P: &Para{Runs: []Run{txt(string(text[:p]), red), txt(string(text[p:q]), bold), txt(string(text[q:]), nil)}}},
+				{T: &Table{Rows: 1, Cols: 1, LoopRow: -1, Cells: [][]Cell{{cellp(txt(string(text[:p]), nil), txt(string(text[p:q]), bold), txt(string(text[q:]), red))}}}}},
+				Data: Data{Vars: map[string]Val{"name": {S: ""}, "city": {S: "中文 😀"}}}, Entry: p % 2})
+		}
+	}
+	return out
+}
